@@ -13,6 +13,14 @@
 //! Permutation/sign part compared bit for bit; scaled elements against a double-double
 //! evaluation of the exact published ratio, tolerance TOL_ULP.
 //!
+//! Containers: the reference is a statement about the 4-D view of a tuple, so it is also
+//! checked on operand sets of all 36 container kinds (Vec / array / &mut slice of Coor4D,
+//! Coor3D, Coor2D, Coor32; plain and in the (set, h, t) / (set, t) adapters), both directions:
+//! the view documented in src/coordinate/set.rs (missing height 0, missing epoch NaN, f32
+//! widened, adapter constants) -> declared mapping -> dimensions the element type keeps
+//! (f32 narrowed). axisswap: all 442 orders; adapt: every spelling as from and as to per
+//! kind; unitconvert: every xy pair and every z pair per kind.
+//!
 //! A mismatch of an adapt result is additionally classified by replaying the library's
 //! bookkeeping with up to three index slips switched on (see `lib_model`): the failure key
 //! names exactly the set of slips that reproduces the library output, so that a different
@@ -1323,8 +1331,542 @@ fn check_bogus_unit(c: &BogusUnitCase, rec: &mut Rec) -> CaseResult {
 }
 
 // ---------------------------------------------------------------------------------------
+// the three operators on every container kind
+// ---------------------------------------------------------------------------------------
+//
+// The declared reordering / sign / scaling is a statement about the 4-D view of a tuple.
+// src/coordinate/set.rs documents that view for every container: a Coor2D element reads
+// (x, y, 0, NaN), a Coor32 element the same with its f32 values widened, a Coor3D element
+// (x, y, z, NaN), a Coor4D element itself; the adapter (set, h, t) reads (x, y, h, t) and
+// (set, t) reads (x, y, z, t) of the set's own view; what is written back is kept in the
+// dimensions the element type has (Coor32: narrowed to f32), the rest is dropped.
+// The reference below is that statement, written down without the library: view -> declared
+// mapping (the same `Map` / unit ratios as for Vec<Coor4D>) -> kept dimensions.
+
+/// number of tuples of a container case (arrays need a compile-time length)
+const CONT_N: usize = 4;
+const BASE_NAMES: [&str; 4] = ["Coor4D", "Coor3D", "Coor2D", "Coor32"];
+const BASE_DIM: [usize; 4] = [4, 3, 2, 2];
+const SHAPES: [&str; 3] = ["Vec", "array", "&mut slice"];
+const WRAPS: [&str; 3] = ["", "(set, h, t)", "(set, t)"];
+const N_KINDS: usize = 36;
+/// fixed height / epoch of the adapters: outside the magnitude bands of the probes
+const FIXED_H: f64 = -71234.567890123456;
+const FIXED_T: f64 = 912345.67890123456;
+
+#[derive(Clone, Debug, Serialize, Deserialize)]
+struct Cont {
+    /// base element (Coor4D, Coor3D, Coor2D, Coor32) + 4 x shape (Vec, array, &mut slice) + 12 x adapter (none, (set,h,t), (set,t))
+    kind: u8,
+    h: F,
+    t: F,
+}
+
+fn kind_parts(kind: u8) -> (usize, usize, usize) {
+    let k = kind as usize % N_KINDS;
+    (k % 4, (k / 4) % 3, k / 12)
+}
+fn kind_label(kind: u8) -> String {
+    let (b, s, w) = kind_parts(kind);
+    if w == 0 {
+        format!("{} of {}", SHAPES[s], BASE_NAMES[b])
+    } else {
+        format!("{} of {} in {}", SHAPES[s], BASE_NAMES[b], WRAPS[w])
+    }
+}
+/// the i-th container of a section: all 36 kinds, adapter constants rotating with a hash
+/// (mostly a non-zero height and a finite epoch; also epoch NaN and height 0)
+fn cont_of(kind: usize, salt: u64) -> Cont {
+    let (h, t) = [(FIXED_H, FIXED_T), (FIXED_H, FIXED_T), (FIXED_H, f64::NAN), (0.0, FIXED_T)][(splitmix(salt ^ 0xC0F7) % 4) as usize];
+    Cont { kind: kind as u8, h: F(h), t: F(t) }
+}
+
+/// REFERENCE: what the container documents for get_coord of an element made from `p`
+fn view(c: &Cont, p: &[f64; 4]) -> [f64; 4] {
+    let (base, _, wrap) = kind_parts(c.kind);
+    let b = match base {
+        0 => *p,
+        1 => [p[0], p[1], p[2], f64::NAN],
+        2 => [p[0], p[1], 0.0, f64::NAN],
+        _ => [p[0] as f32 as f64, p[1] as f32 as f64, 0.0, f64::NAN],
+    };
+    match wrap {
+        1 => [b[0], b[1], c.h.0, c.t.0],
+        2 => [b[0], b[1], b[2], c.t.0],
+        _ => b,
+    }
+}
+/// REFERENCE: what element `i` of the container holds after a value was written to it
+fn narrow(c: &Cont, v: f64) -> f64 {
+    if kind_parts(c.kind).0 == 3 {
+        v as f32 as f64
+    } else {
+        v
+    }
+}
+fn kept_dims(c: &Cont) -> usize {
+    BASE_DIM[kind_parts(c.kind).0]
+}
+/// a dimension the element type stores but the adapter overrides in the view ((set, h, t)
+/// around Coor3D/Coor4D, (set, t) around Coor4D). A non-trivial operator writes the mapped
+/// view into it; an operator whose declared mapping is the identity may just as well leave the
+/// set untouched (adapt documents that shortcut: `noop`), so there both states are accepted.
+fn shadowed(c: &Cont, i: usize) -> bool {
+    let wrap = kind_parts(c.kind).2;
+    i < kept_dims(c) && ((wrap == 1 && i >= 2) || (wrap == 2 && i == 3))
+}
+fn is_identity(m: &Map) -> bool {
+    (0..4).all(|i| m[i].src == i && !m[i].neg && m[i].num == m[i].den)
+}
+
+/// library-facing part: building elements and reading what they hold
+trait Store: Copy {
+    fn from4(p: &[f64; 4]) -> Self;
+    fn held(&self) -> Vec<f64>;
+}
+impl Store for Coor4D {
+    fn from4(p: &[f64; 4]) -> Self {
+        Coor4D(*p)
+    }
+    fn held(&self) -> Vec<f64> {
+        self.0.to_vec()
+    }
+}
+impl Store for Coor3D {
+    fn from4(p: &[f64; 4]) -> Self {
+        Coor3D([p[0], p[1], p[2]])
+    }
+    fn held(&self) -> Vec<f64> {
+        self.0.to_vec()
+    }
+}
+impl Store for Coor2D {
+    fn from4(p: &[f64; 4]) -> Self {
+        Coor2D([p[0], p[1]])
+    }
+    fn held(&self) -> Vec<f64> {
+        self.0.to_vec()
+    }
+}
+impl Store for Coor32 {
+    fn from4(p: &[f64; 4]) -> Self {
+        Coor32([p[0] as f32, p[1] as f32])
+    }
+    fn held(&self) -> Vec<f64> {
+        vec![self.0[0] as f64, self.0[1] as f64]
+    }
+}
+
+enum ContOutcome {
+    Rejected(String),
+    /// (reported successes, what every element holds afterwards)
+    Done(usize, Vec<Vec<f64>>),
+}
+
+fn cont_apply<C: Context>(ctx: &C, op: OpHandle, fwd: bool, what: &str, set: &mut dyn CoordinateSet) -> Result<usize, Failure> {
+    let dir = dir_of(fwd);
+    match try_apply(ctx, op, dir_of(fwd), set) {
+        Err(p) => vfail!(format!("panic-apply@{}", p.sig()), "applying {what} ({dir:?}) panics: {} at {}:{}", p.msg, p.file, p.line),
+        Ok(Err(e)) => vfail!("apply-error", "apply of {what} ({dir:?}) returned an error: {e:?}"),
+        Ok(Ok(n)) => Ok(n),
+    }
+}
+
+fn cont_store<C: Context, T: Store>(ctx: &C, op: OpHandle, fwd: bool, what: &str, c: &Cont, pts: &[[f64; 4]]) -> Result<(usize, Vec<Vec<f64>>), Failure>
+where
+    Vec<T>: CoordinateSet,
+    [T; CONT_N]: CoordinateSet,
+    for<'a> &'a mut [T]: CoordinateSet,
+{
+    let (_, shape, wrap) = kind_parts(c.kind);
+    let (h, t) = (c.h.0, c.t.0);
+    let mut elems: Vec<T> = pts.iter().map(T::from4).collect();
+    let count;
+    match shape {
+        0 => match wrap {
+            1 => {
+                let mut w = (elems, h, t);
+                count = cont_apply(ctx, op, fwd, what, &mut w)?;
+                elems = w.0;
+            }
+            2 => {
+                let mut w = (elems, t);
+                count = cont_apply(ctx, op, fwd, what, &mut w)?;
+                elems = w.0;
+            }
+            _ => count = cont_apply(ctx, op, fwd, what, &mut elems)?,
+        },
+        1 => {
+            let mut a: [T; CONT_N] = match elems[..].try_into() {
+                Ok(a) => a,
+                Err(_) => vfail!("harness-bad-case", "a container case needs exactly {CONT_N} tuples"),
+            };
+            match wrap {
+                1 => {
+                    let mut w = (a, h, t);
+                    count = cont_apply(ctx, op, fwd, what, &mut w)?;
+                    a = w.0;
+                }
+                2 => {
+                    let mut w = (a, t);
+                    count = cont_apply(ctx, op, fwd, what, &mut w)?;
+                    a = w.0;
+                }
+                _ => count = cont_apply(ctx, op, fwd, what, &mut a)?,
+            }
+            elems = a.to_vec();
+        }
+        _ => {
+            let mut sl: &mut [T] = &mut elems[..];
+            match wrap {
+                1 => {
+                    let mut w = (sl, h, t);
+                    count = cont_apply(ctx, op, fwd, what, &mut w)?;
+                }
+                2 => {
+                    let mut w = (sl, t);
+                    count = cont_apply(ctx, op, fwd, what, &mut w)?;
+                }
+                _ => count = cont_apply(ctx, op, fwd, what, &mut sl)?,
+            }
+        }
+    }
+    Ok((count, elems.iter().map(|e| e.held()).collect()))
+}
+
+fn run_cont_in<C: Context>(mut ctx: C, def: &str, fwd: bool, c: &Cont, pts: &[[f64; 4]]) -> Result<ContOutcome, Failure> {
+    let op = match try_op(&mut ctx, def) {
+        Err(p) => vfail!(format!("panic-instantiate@{}", p.sig()), "instantiating '{def}' panics: {} at {}:{}", p.msg, p.file, p.line),
+        Ok(Err(e)) => return Ok(ContOutcome::Rejected(format!("{e:?}"))),
+        Ok(Ok(op)) => op,
+    };
+    let what = format!("'{def}' on a {}", kind_label(c.kind));
+    let (n, held) = match kind_parts(c.kind).0 {
+        0 => cont_store::<C, Coor4D>(&ctx, op, fwd, &what, c, pts)?,
+        1 => cont_store::<C, Coor3D>(&ctx, op, fwd, &what, c, pts)?,
+        2 => cont_store::<C, Coor2D>(&ctx, op, fwd, &what, c, pts)?,
+        _ => cont_store::<C, Coor32>(&ctx, op, fwd, &what, c, pts)?,
+    };
+    Ok(ContOutcome::Done(n, held))
+}
+
+/// ctx: 0/1 = Minimal::default, 2/3 = Plain::default (no macros needed here)
+fn run_cont(def: &str, ctx: u8, fwd: bool, c: &Cont, pts: &[[f64; 4]]) -> Result<ContOutcome, Failure> {
+    if ctx < 2 {
+        run_cont_in(Minimal::default(), def, fwd, c, pts)
+    } else {
+        run_cont_in(Plain::default(), def, fwd, c, pts)
+    }
+}
+
+/// One scaled element as held by the container. `v` = viewed source value, `want` = the exact
+/// product. f64 elements: within `tol` ulp of the exact value, as for Vec<Coor4D>. f32 elements
+/// (Coor32): the library rounds its f64 result to f32; any f64 within `tol` ulp of the exact
+/// value is acceptable before that rounding, and rounding is monotonic, so the held value must
+/// lie between the f32 roundings of (exact -/+ (tol + 1) ulp) (+1 for evaluating the bounds).
+fn check_scaled_held(got: f64, v: f64, want: DD, f32_elem: bool, tol: f64) -> Result<f64, String> {
+    if v.is_nan() {
+        return if got.is_nan() { Ok(0.0) } else { Err(format!("library {got:?}, expected NaN (the source element reads NaN)")) };
+    }
+    if v.is_infinite() {
+        return if got == want.hi { Ok(0.0) } else { Err(format!("library {got:?}, expected {:?}", want.hi)) };
+    }
+    if !f32_elem {
+        let e = ulp_err(got, want);
+        return if e <= tol { Ok(e) } else { Err(format!("library {got:?}, expected {:?} (exact ratio evaluated in double-double), off by {e:.3e} ulp, tolerance {tol} ulp", want.hi)) };
+    }
+    let d = (tol + 1.0) * ulp_of(want.hi);
+    let (a, b) = ((want.hi - d) as f32 as f64, (want.hi + d) as f32 as f64);
+    if a <= got && got <= b {
+        Ok(0.0)
+    } else {
+        Err(format!("library holds {got:?} (f32), expected the f32 rounding of {:?} +/- {tol} ulp, i.e. a value in [{a:?}, {b:?}]", want.hi))
+    }
+}
+
+/// what a container must hold after the mapping `m` was applied to the viewed tuple `seen`
+/// (scaled elements: the centre of the accepted interval)
+fn expected_held(m: &Map, c: &Cont, seen: &[f64; 4]) -> Vec<f64> {
+    let w = expected_tuple(m, seen);
+    (0..kept_dims(c)).map(|i| if seen[m[i].src].is_nan() { f64::NAN } else { narrow(c, w[i]) }).collect()
+}
+
+/// Strict comparison of what the container holds against a map applied to the documented view.
+fn compare_held(m: &Map, c: &Cont, input: &[[f64; 4]], held: &[Vec<f64>], tol: f64, worst: &mut f64) -> Option<String> {
+    let dims = kept_dims(c);
+    let f32_elem = kind_parts(c.kind).0 == 3;
+    let identity = is_identity(m);
+    for (p, x) in input.iter().enumerate() {
+        let seen = view(c, x);
+        if held[p].len() != dims {
+            return Some(format!("tuple {p}: harness: element holds {} values, {dims} expected", held[p].len()));
+        }
+        for i in 0..dims {
+            let e = &m[i];
+            let v = seen[e.src];
+            let got = held[p][i];
+            if identity && shadowed(c, i) && bits_eq(got, x[i]) {
+                continue;
+            }
+            let r = if e.num == U::One && e.den == U::One {
+                let want = narrow(c, if e.neg { -v } else { v });
+                if bits_eq(got, want) {
+                    Ok(0.0)
+                } else {
+                    Err(format!("library {got:?}, expected exactly {want:?} (bit-identical: pure reordering / sign)"))
+                }
+            } else {
+                let mut want = ratio_dd(e.num, e.den).mul(DD::f(v));
+                if e.neg {
+                    want = want.neg();
+                }
+                check_scaled_held(got, v, want, f32_elem, tol)
+            };
+            match r {
+                Ok(u) => {
+                    if u > *worst {
+                        *worst = u;
+                    }
+                }
+                Err(t) => {
+                    return Some(format!(
+                        "tuple {p} element {i} ({}): {t}\n  element built from {:?}\n  documented 4-D view  {:?}\n  container holds      {:?}\n  must hold            {:?}{}",
+                        elem_text(i, e),
+                        &x[..dims],
+                        seen,
+                        held[p],
+                        expected_held(m, c, &seen),
+                        if e.src >= dims { format!("\n  (element {} of the view is not stored by the element type: it reads as the documented constant {:?})", e.src, v) } else { String::new() }
+                    ))
+                }
+            }
+        }
+    }
+    None
+}
+
+/// classes of a container case: the kind, and whether a kept dimension receives a dimension
+/// the element type does not store (documented constant / adapter value) — the non-trivial rule
+fn cont_classes(m: &Map, c: &Cont, inverse: bool, rec: &mut Rec) -> bool {
+    let dims = kept_dims(c);
+    let virtual_in = (0..dims).any(|i| m[i].src >= dims);
+    let (b, _, w) = kind_parts(c.kind);
+    rec.class(&format!("container:{}", kind_label(c.kind)));
+    rec.class(&format!("{}:{}{}", if inverse { "inverse" } else { "forward" }, BASE_NAMES[b], if w == 0 { "" } else { "+adapter" }));
+    if dims < 4 {
+        rec.class(if virtual_in { "unstored-dimension-moves-into-kept" } else { "kept-dimensions-among-themselves" });
+        if virtual_in {
+            rec.class(&format!("unstored-into-kept:{}:{}", if inverse { "inverse" } else { "forward" }, BASE_NAMES[b]));
+        }
+    }
+    virtual_in
+}
+
+// ---- axisswap ---------------------------------------------------------------------------
+
+#[derive(Clone, Debug, Serialize, Deserialize)]
+struct SwapContCase {
+    order: Vec<i8>,
+    inv_flag: bool,
+    fwd: bool,
+    cont: Cont,
+    probes: Vec<P4>,
+}
+
+/// the documented action of a valid order as a map: forward out[i] = sign x in[|order[i]|],
+/// unlisted trailing axes untouched; the inverse undoes it
+fn swap_map(order: &[i8], inverse: bool) -> Map {
+    let mut m = [0, 1, 2, 3].map(|i| Elem { src: i, neg: false, num: U::One, den: U::One });
+    for (i, &o) in order.iter().enumerate() {
+        let a = o.unsigned_abs() as usize - 1;
+        if !inverse {
+            m[i] = Elem { src: a, neg: o < 0, num: U::One, den: U::One };
+        } else {
+            m[a] = Elem { src: i, neg: o < 0, num: U::One, den: U::One };
+        }
+    }
+    m
+}
+
+fn check_swap_cont(c: &SwapContCase, rec: &mut Rec) -> CaseResult {
+    vensure!(swap_valid(&c.order), "harness-bad-case", "container case with the invalid order {:?}", c.order);
+    let def = format!("axisswap{} order={}", if c.inv_flag { " inv" } else { "" }, swap_text(&c.order));
+    let input = raw(&c.probes);
+    let dir = dir_of(c.fwd);
+    let label = kind_label(c.cont.kind);
+    let (n, held) = match run_cont(&def, 0, c.fwd, &c.cont, &input)? {
+        ContOutcome::Rejected(e) => vfail!("axisswap-valid-rejected", "'{def}': a signed permutation of 1..{} is rejected: {e}", c.order.len()),
+        ContOutcome::Done(n, held) => (n, held),
+    };
+    vensure!(n == input.len(), "axisswap-count", "'{def}' ({dir:?}) on a {label} of {} tuples reports {n} successes", input.len());
+    let inverse = c.inv_flag != !c.fwd;
+    let m = swap_map(&c.order, inverse);
+    let mut worst = 0.0;
+    if let Some(mis) = compare_held(&m, &c.cont, &input, &held, 0.0, &mut worst) {
+        vfail!(format!("axisswap-wrong-output[container:{}]", BASE_NAMES[kind_parts(c.cont.kind).0]),
+            "'{def}' applied {dir:?} ({}) on a {label} (h = {:?}, t = {:?}): {mis}\n  documented mapping on the 4-D view {{{}}}",
+            if inverse { "the reverse mapping" } else { "the declared mapping" }, c.cont.h.0, c.cont.t.0, map_text(&m));
+    }
+    if cont_classes(&m, &c.cont, inverse, rec) {
+        rec.nontrivial(&(def, c.fwd, c.cont.kind));
+    }
+    Ok(())
+}
+
+// ---- adapt ------------------------------------------------------------------------------
+
+#[derive(Clone, Debug, Serialize, Deserialize)]
+struct PairContCase {
+    pair: PairCase,
+    cont: Cont,
+}
+
+fn check_pair_cont(c: &PairContCase, rec: &mut Rec) -> CaseResult {
+    let (def, dfrom, dto, inv_flag, ctx) = pair_def(&c.pair);
+    let (Some(f), Some(t)) = (parse_desc(&dfrom), parse_desc(&dto)) else {
+        vfail!("harness-bad-case", "case descriptors '{dfrom}' / '{dto}' are not valid spellings")
+    };
+    let fwd = c.pair.fwd;
+    let dir = dir_of(fwd);
+    let input = raw(&c.pair.probes);
+    let label = kind_label(c.cont.kind);
+    let (n, held) = match run_cont(&def, ctx, fwd, &c.cont, &input)? {
+        ContOutcome::Rejected(e) => vfail!("adapt-valid-rejected", "'{def}': valid descriptors rejected: {e}"),
+        ContOutcome::Done(n, held) => (n, held),
+    };
+    vensure!(n == input.len(), "adapt-count", "'{def}' ({dir:?}) on a {label} of {} tuples reports {n} successes", input.len());
+    let inverse_path = inv_flag != !fwd;
+    let want = if inverse_path { reference(&t, &f) } else { reference(&f, &t) };
+    let mut worst = 0.0;
+    if let Some(mis) = compare_held(&want, &c.cont, &input, &held, TOL_ULP, &mut worst) {
+        vfail!(format!("adapt-wrong-output[container:{}]", BASE_NAMES[kind_parts(c.cont.kind).0]),
+            "'{def}' applied {dir:?} ({}) on a {label} (h = {:?}, t = {:?}): {mis}\n  documented mapping on the 4-D view {{{}}}",
+            if inverse_path { format!("must deliver '{dfrom}' from '{dto}'") } else { format!("must deliver '{dto}' from '{dfrom}'") },
+            c.cont.h.0, c.cont.t.0, map_text(&want));
+    }
+    rec.metric("worst_ulp", worst);
+    let virtual_in = cont_classes(&want, &c.cont, inverse_path, rec);
+    let dims = kept_dims(&c.cont);
+    if (0..dims).any(|i| want[i].num != want[i].den) {
+        rec.class(&format!("scaled-kept-element:{}", BASE_NAMES[kind_parts(c.cont.kind).0]));
+    }
+    if virtual_in {
+        rec.nontrivial(&(def, fwd, c.cont.kind));
+    }
+    Ok(())
+}
+
+// ---- unitconvert ------------------------------------------------------------------------
+
+#[derive(Clone, Debug, Serialize, Deserialize)]
+struct ConvContCase {
+    conv: ConvCase,
+    cont: Cont,
+}
+
+fn conv_def(c: &ConvCase) -> String {
+    let names = [&c.xy_in, &c.xy_out, &c.z_in, &c.z_out];
+    let mut def = String::from("unitconvert");
+    if c.inv_flag {
+        def.push_str(" inv");
+    }
+    for (r, n) in names.iter().enumerate() {
+        if !(c.omit_defaults && n.as_str() == "m") {
+            def.push_str(&format!(" {}={}", ROLES[r], n));
+        }
+    }
+    def
+}
+
+fn check_conv_cont(cc: &ConvContCase, rec: &mut Rec) -> CaseResult {
+    let c = &cc.conv;
+    let names = [&c.xy_in, &c.xy_out, &c.z_in, &c.z_out];
+    let def = conv_def(c);
+    let u: Vec<&PubUnit> = names.iter().map(|n| published(n).expect("published name")).collect();
+    let input = raw(&c.probes);
+    let dir = dir_of(c.fwd);
+    let label = kind_label(cc.cont.kind);
+    let same_kind = is_angular(u[0]) == is_angular(u[1]) && !is_angular(u[2]) && !is_angular(u[3]);
+    let (n, held) = match run_cont(&def, 0, c.fwd, &cc.cont, &input)? {
+        ContOutcome::Rejected(e) => {
+            for (r, nm) in names.iter().enumerate() {
+                if resolved_factor(r, nm, 1.0)?.is_err() {
+                    rec.count("excluded_known", 1);
+                    rec.class("excluded-unresolved-name");
+                    return Ok(());
+                }
+            }
+            vensure!(!same_kind, "unitconvert-valid-rejected", "'{def}': all four units are published and of matching kind, but the definition is rejected: {e}");
+            rec.class("mixed-kind-rejected");
+            return Ok(());
+        }
+        ContOutcome::Done(n, held) => (n, held),
+    };
+    vensure!(n == input.len(), "unitconvert-count", "'{def}' ({dir:?}) on a {label} of {} tuples reports {n} successes", input.len());
+    let inverse = c.inv_flag != !c.fwd;
+    let (rxy, rz) = if inverse { (pub_ratio(u[1], u[0]), pub_ratio(u[3], u[2])) } else { (pub_ratio(u[0], u[1]), pub_ratio(u[2], u[3])) };
+    let dims = kept_dims(&cc.cont);
+    let base = kind_parts(cc.cont.kind).0;
+    let identity = c.xy_in == c.xy_out && c.z_in == c.z_out;
+    for (p, x) in input.iter().enumerate() {
+        let seen = view(&cc.cont, x);
+        vensure!(held[p].len() == dims, "harness-bad-case", "element holds {} values, {dims} expected", held[p].len());
+        for i in 0..dims {
+            let got = held[p][i];
+            if identity && shadowed(&cc.cont, i) && bits_eq(got, x[i]) {
+                continue;
+            }
+            if i == 3 {
+                // also the adapter's fixed epoch, which a 4-D element receives on write-back
+                vensure!(bits_eq(got, seen[3]), format!("unitconvert-touches-time[container:{}]", BASE_NAMES[base]),
+                    "'{def}' ({dir:?}) on a {label}: tuple {p} built from {:?}, documented 4-D view {:?} -> container holds {:?}; the fourth element must be the viewed one, untouched", x, seen, held[p]);
+                continue;
+            }
+            let r = if i < 2 { rxy } else { rz };
+            match check_scaled_held(got, seen[i], r.mul(DD::f(seen[i])), base == 3, TOL_UC_ULP) {
+                Ok(e) => rec.metric("worst_ulp", e),
+                Err(t) => vfail!(format!("unitconvert-wrong-factor[container:{}]", BASE_NAMES[base]),
+                    "'{def}' ({dir:?}) on a {label} (h = {:?}, t = {:?}): tuple {p} element {i}: {t}\n  element built from {:?}\n  documented 4-D view  {:?}\n  container holds      {:?}\n  element {i} must be the viewed value x ({} / {}){}",
+                    cc.cont.h.0, cc.cont.t.0, &x[..dims], seen, held[p],
+                    if i < 2 { u[0].text } else { u[2].text }, if i < 2 { u[1].text } else { u[3].text }, if inverse { " inverted" } else { "" }),
+            }
+        }
+    }
+    rec.class(&format!("container:{label}"));
+    rec.class(&format!("{}:{}", if inverse { "inverse" } else { "forward" }, BASE_NAMES[base]));
+    rec.class(if !same_kind { "mixed-kind-accepted" } else if is_angular(u[0]) { "angular-xy" } else { "linear-xy" });
+    if c.xy_in != c.xy_out || (dims > 2 && c.z_in != c.z_out) {
+        rec.nontrivial(&(def, c.fwd, cc.cont.kind));
+    }
+    Ok(())
+}
+
+// ---------------------------------------------------------------------------------------
 
 fn selftest() {
+    // container reference: the seed of the documentation (set.rs): a Coor2D reads (x, y, 0, NaN)
+    {
+        let c2 = Cont { kind: 2, h: F(FIXED_H), t: F(FIXED_T) };
+        let s = view(&c2, &[11., 12., 13., 14.]);
+        assert!(s[0] == 11. && s[1] == 12. && s[2] == 0. && s[3].is_nan() && kept_dims(&c2) == 2);
+        // the inverse of order=3,1,2 sends element 0 to 2, 1 to 0, 2 to 1: (11, 12, 0) -> (12, 0, 11)
+        let e = expected_held(&swap_map(&[3, 1, 2], true), &c2, &s);
+        assert!(e == [12., 0.], "{e:?}");
+        let e = expected_held(&swap_map(&[3, 1, 2], false), &c2, &s);
+        assert!(e == [0., 11.], "{e:?}");
+        // (Vec<Coor3D>, t): kind 1 + 4*0 + 12*2
+        let c3t = Cont { kind: 25, h: F(FIXED_H), t: F(FIXED_T) };
+        assert_eq!(kind_label(25), "Vec of Coor3D in (set, t)");
+        assert_eq!(view(&c3t, &[11., 12., 13., 14.]), [11., 12., 13., FIXED_T]);
+        assert_eq!(expected_held(&swap_map(&[4, 1, 2, 3], false), &c3t, &[11., 12., 13., FIXED_T]), [FIXED_T, 11., 12.]);
+        // Coor32 keeps f32 roundings
+        let c32 = Cont { kind: 3, h: F(FIXED_H), t: F(FIXED_T) };
+        assert_eq!(view(&c32, &[0.1, 0.2, 13., 14.])[0], 0.1f32 as f64);
+        assert!(check_scaled_held((0.1f32 as f64 * 57.29577951308232) as f32 as f64, 0.1f32 as f64, ratio_dd(U::One, U::Deg).mul(DD::f(0.1f32 as f64)), true, TOL_ULP).is_ok());
+        assert!(check_scaled_held(0.1f32 as f64 * 57.29577951308232, 0.1f32 as f64, ratio_dd(U::One, U::Deg).mul(DD::f(0.1f32 as f64)), true, TOL_ULP).is_err());
+        let labels: std::collections::BTreeSet<String> = (0..N_KINDS).map(|k| kind_label(k as u8)).collect();
+        assert_eq!(labels.len(), N_KINDS);
+    }
     // double-double constants against the correctly rounded doubles
     assert_eq!(ratio_dd(U::Deg, U::One).hi, 0.017453292519943295);
     assert_eq!(ratio_dd(U::One, U::Deg).hi, 57.29577951308232);
@@ -1374,6 +1916,7 @@ fn main() {
     run.assume("adapt: elements whose declared factor is 1 (no angular unit on either side, or a non-horizontal axis) are compared bit for bit; scaled elements (also deg->deg, gon->gon) within 6 ulp (adapt) / 8 ulp (unitconvert) of the exact ratio evaluated in double-double");
     run.assume("axisswap: accepted lists are exactly the signed permutations of 1..k, k <= 4 (index > k is 'out of range', as in PROJ and the module's own test order=2,3)");
     run.assume("unitconvert: published factors = the PROJ unit table (typed into the harness as exact rationals; U.S. survey units as k/3937, whose printed 15/16-digit expansions are checked to their last digit); combinations mixing linear and angular units, and angular z units, may be rejected or converted by the plain ratio - both are accepted");
+    run.assume("containers: the declared mapping acts on the 4-D view that src/coordinate/set.rs documents for get_coord (Coor2D: height 0, epoch NaN; Coor3D: epoch NaN; Coor32: its f32 values widened; (set, h, t) / (set, t): the fixed values), and what the operator delivers is kept in the dimensions the element type stores (Coor32: rounded to f32); single operators only (2-D/3-D containers drop Z/T between pipeline steps by design); where an adapter overrides a dimension the element type stores ((set, h, t) around Coor3D/Coor4D, (set, t) around Coor4D) a non-trivial mapping must write the mapped view into it, an identity mapping (adapt's documented no-op shortcut) may also leave it untouched");
     run.assume("descriptor `pass` and non-integer spellings such as order=2.0 are undocumented and not exercised");
 
     let seed = run.seed;
@@ -1652,5 +2195,72 @@ fn main() {
         );
     }
 
-    run.finish("finite domains enumerated completely: adapt 1920x1920 descriptor pairs x directions (x definition variants), 4096 words x 21 suffix forms, eight macros; axisswap all 177155 index lists over -5..5 up to length 5; unitconvert all 24^4 unit combinations and every unit table entry; each compared with a table-driven reference written from the documentation (reordering/sign bit-identical, scaling within 6 ulp (adapt) / 8 ulp (unitconvert) of the exact ratio)");
+    // ---- the three operators on every container kind ------------------------------------------
+    {
+        let kinds_text = "all 36 container kinds (Vec / array / &mut slice of Coor4D, Coor3D, Coor2D, Coor32, each plain, in (set, h, t) and in (set, t); adapter constants rotating over (h, t), (h, NaN), (0, t))";
+        let oracle_text = "reference = the declared mapping applied to the 4-D view the container documents for get_coord (Coor2D: height 0, epoch NaN; Coor3D: epoch NaN; Coor32: widened f32 values; adapters: their fixed values), kept in the dimensions the element type stores (Coor32: narrowed to f32), written in the harness without the library";
+
+        // axisswap: all 442 x inv flag x direction x 36 kinds
+        let valid = all_valid_swaps();
+        let mut prs = probes(seed ^ 0xC0A7, CONT_N - 1);
+        prs.push(p4(f64::INFINITY, -0.0, f64::NAN, 5e-324));
+        run.enumerate(
+            "axisswap-containers",
+            &format!("all 442 signed partial permutations x {{axisswap, axisswap inv}} x both directions x {kinds_text}, {CONT_N} tuples (generic + inf/-0/NaN/subnormal), bit for bit; {oracle_text}; non-trivial = a kept dimension receives a dimension the element type does not store"),
+            442 * 4 * N_KINDS,
+            move |i| {
+                let o = i % 442;
+                let r = (i / 442) % 4;
+                let k = i / (442 * 4);
+                SwapContCase { order: valid[o].clone(), inv_flag: r % 2 == 1, fwd: r / 2 == 0, cont: cont_of(k, i as u64), probes: prs.clone() }
+            },
+            check_swap_cont,
+        );
+
+        // adapt: every spelling as `from` and as `to`, in both directions, per kind; the other
+        // side drawn from all 1920 by a hash of the index (thorough: 6 draws)
+        let pra = probes(seed ^ 0xADA7, CONT_N);
+        let reps = if thorough { 6 } else { 1 };
+        run.enumerate(
+            "adapt-containers",
+            &format!("per container kind: every one of the 1920 spellings (24 orders x 16 sign patterns x 5 suffix forms) once as `from` and once as `to`, x both directions (= 7680 cases per kind), the other descriptor drawn from all 1920 by a hash of the index ({reps} draw(s)), definition variant {{from/to, to/from, `inv` with swapped roles, Plain}} by hash; {kinds_text}; pure elements bit for bit, scaled elements within 6 ulp (f32 elements: between the f32 roundings of the exact value -/+ 7 ulp); {oracle_text}; non-trivial = a kept dimension receives a dimension the element type does not store"),
+            N_KINDS * N_SPELL * 4 * reps,
+            move |i| {
+                let s = i % N_SPELL;
+                let r = (i / N_SPELL) % 4;
+                let k = (i / (N_SPELL * 4)) % N_KINDS;
+                let hsh = splitmix(seed ^ splitmix(i as u64 ^ 0xADA9_7000));
+                let partner = (hsh % N_SPELL as u64) as usize;
+                let (fi, ti) = if r % 2 == 0 { (s, partner) } else { (partner, s) };
+                let pair = PairCase { from: spelling(fi), to: spelling(ti), variant: ((hsh >> 32) % 4) as u8, fwd: r / 2 == 0, probes: pra.clone() };
+                PairContCase { pair, cont: cont_of(k, i as u64) }
+            },
+            check_pair_cont,
+        );
+
+        // unitconvert: every xy pair and every z pair per kind, both directions
+        let pru = probes(seed ^ 0xC0C0, CONT_N);
+        let flags = if thorough { 4 } else { 1 };
+        run.enumerate(
+            "unitconvert-containers",
+            &format!("per container kind: every (xy_in, xy_out) pair of the 24 published names with (z_in, z_out) drawn by hash, and every (z_in, z_out) pair with (xy_in, xy_out) drawn by hash, x both directions; `inv` flag and omission of default-valued parameters by hash (thorough: all 4 combinations); {kinds_text}; kept x, y, z within 8 ulp of the exact ratio (f32 elements: between the f32 roundings of the exact value -/+ 9 ulp), a kept fourth element bit-identical to the viewed one; {oracle_text}; non-trivial = a kept element changes unit"),
+            N_KINDS * 576 * 4 * flags,
+            move |i| {
+                let j = i % 576;
+                let r = (i / 576) % 4;
+                let k = (i / (576 * 4)) % N_KINDS;
+                let fl = i / (576 * 4 * N_KINDS);
+                let hsh = splitmix(seed ^ splitmix(i as u64 ^ 0xC0C0_7000));
+                let other = (hsh % 576) as usize;
+                let (xy, z) = if r % 2 == 0 { (j, other) } else { (other, j) };
+                let f = if flags == 4 { fl } else { ((hsh >> 32) % 4) as usize };
+                let nm = |q: usize| PUBLISHED[q % 24].name.to_string();
+                let conv = ConvCase { xy_in: nm(xy), xy_out: nm(xy / 24), z_in: nm(z), z_out: nm(z / 24), omit_defaults: f & 2 != 0, inv_flag: f & 1 != 0, fwd: r / 2 == 0, probes: pru.clone() };
+                ConvContCase { conv, cont: cont_of(k, i as u64) }
+            },
+            check_conv_cont,
+        );
+    }
+
+    run.finish("finite domains enumerated completely: adapt 1920x1920 descriptor pairs x directions (x definition variants), 4096 words x 21 suffix forms, eight macros; axisswap all 177155 index lists over -5..5 up to length 5; unitconvert all 24^4 unit combinations and every unit table entry; each compared with a table-driven reference written from the documentation (reordering/sign bit-identical, scaling within 6 ulp (adapt) / 8 ulp (unitconvert) of the exact ratio); the same reference on the documented 4-D view of all 36 container kinds (Vec/array/slice of Coor4D/3D/2D/32, plain and in the (set,h,t)/(set,t) adapters): axisswap all 442 orders x flag x direction, adapt every spelling as from and as to in both directions, unitconvert every xy and every z unit pair in both directions, per kind");
 }
